@@ -115,6 +115,20 @@ def render_value(ip, kind, ty, p, opts=None):
         if kind == 'display':
             return b
         return [BV(8, 34)] + b + [BV(8, 34)]      # Debug: quoted (escapes not modelled)
+    if kind == 'lower_hex':
+        x = deref(ip, v)
+        if isinstance(x, (Seq, SeqView)):
+            out = []
+            for b in x.items:
+                for nib in ((b.v >> 4) if b.concrete else z3.LShR(b.v, 4), (b.v & 15) if b.concrete else (b.v & 15)):
+                    if isinstance(nib, int):
+                        out.append(BV(8, ord('0123456789abcdef'[nib])))
+                    else:
+                        out.append(bv(8, z3.If(z3.ULT(nib, 10), nib + 48, nib + 87)))
+            return out
+        if isinstance(x, BV) and x.concrete:
+            return [BV(8, c_) for c_ in ('%x' % x.v).encode()]
+        raise Inconclusive("lower_hex formatting of %r" % (x,))
     if kind == 'display':
         cands = ip.prog.lookup('<%s as Display>::fmt' % ty.lstrip('&').replace('mut ', ''))
         if cands:
